@@ -191,7 +191,7 @@ def r3_every_segment(ctx):
         path = None
         for s in body_start:
             path = g.find_path(s, lambda x: x is head, blocked=lambda x: x is gen[0],
-                               edge_ok=lambda a, l, b: (a.id, l) not in fd_tests) if s is not gen[0] else None
+                               edge_ok=lambda a, l, b: (a.id, l) not in fd_tests and b is not g.rexit, use_exc=True) if s is not gen[0] else None
             if path:
                 break
         # `continue`-free loop: the walk may legally skip only through the fd_html F edge
